@@ -679,9 +679,13 @@ def discharge_all(obligs, timeout_s=10, workers=16):
     candidate = [None] * n
     open_ = set(range(n))
 
+    cap = 6 * timeout_s          # total solver time spent on one obligation before it is left undecided / to its candidates
+
     def run_stage(stage, idxs, budget, use_cvc5):
         jobs = []
         for i in idxs:
+            if total[i] > cap and not stage.startswith("cand"):
+                continue
             t = st[i].text(stage)
             if t is None:
                 continue
